@@ -16,6 +16,11 @@ import Generated.Tables
 * `epytext field <tag> <fn> <kind> <hasArg> <paramExists> <attrKnown>` → `heading=… attr=0|shown|hidden reported=… modelled=…`
 * `epytext itemliteral <bullet_indent> <para_start> <bullet flags 0/1 per line> <u:line>*` → `none` | `some <u:contents> <indent>`
   (`_tokenize_listart` + the literal block `_tokenize` starts after the item's first paragraph)
+* `epytext rstsep <u:text>` → `<u:text after the separator>`   (consolidated reST bullet entry)
+* `epytext params <id[:ann],…|-> <kwargs id|-> <self id|-> (P|K|T)<name>.<text>*` → `rows name/body/type … | reports kind:name …`
+* `epytext extract <existing ids|-> (i|c|v|t|o).<name|->.<text>*` → `attrs name/doc/type/shown|hidden … | missing …`   (`extract_fields`)
+* `epytext showntype <parsed_type|-> <own type fields|-> <annotation|->` → `<text|->`   (`get_parsed_type`)
+* `epytext property <0|1> (r|t|o).<text>.<0|1>*` → `desc=… type=… other=…`   (`_handlePropertyDef`)
 * `epytext heading <u:contents[0]> [<u:contents[1]>]` → `heading <level>` | `typo` | `para`   (`_tokenize_para`)
 * `epytext pair (d<n>|t<n>)*` → `absent` | `body=… type=…`   (return/rtype, yield/ytype handlers in source order)
 * `epytext spaces` → code points below 0x3100 for which `pyIsSpace`
@@ -133,6 +138,74 @@ def showPair : Option PairDesc → String
 
 end Fields
 
+
+namespace Params
+
+def optNat (s : String) : Option (Option Nat) := if s == "-" then some none else s.toNat?.map some
+
+/-- `id` or `id:ann` joined by `,` ; `-` for no parameter -/
+def parseSigParams (tok : String) : Option (List (Nat × Option Nat)) :=
+  if tok == "-" then some [] else
+  (tok.splitOn ",").mapM fun p =>
+    match p.splitOn ":" with
+    | [a] => a.toNat?.map fun n => (n, none)
+    | [a, b] => do some (← a.toNat?, some (← b.toNat?))
+    | _ => none
+
+def parseEvent (tok : String) : Option Event :=
+  match (tok.drop 1).toString.splitOn "." with
+  | [a, b] => do
+    let n ← a.toNat?
+    let t ← b.toNat?
+    if tok.startsWith "P" then some (.param n t)
+    else if tok.startsWith "K" then some (.keyword n t)
+    else if tok.startsWith "T" then some (.type n t)
+    else none
+  | _ => none
+
+def showOpt : Option Nat → String
+  | some n => toString n
+  | none => "-"
+
+def showDesc (d : Desc) : String :=
+  toString d.name ++ "/" ++ showOpt d.body ++ "/" ++ showOpt d.type
+
+def showReport (r : ReportKind × Nat) : String :=
+  (match r.1 with | .duplicate => "dup" | .notFound => "notfound" | .asKeyword => "askw") ++ ":" ++ toString r.2
+
+end Params
+
+namespace Property
+
+def parseField (tok : String) : Option PField :=
+  match tok.splitOn "." with
+  | [k, t, b] => do
+    let tag ← (match k with | "r" => some PTag.ret | "t" => some PTag.rtype | "o" => some PTag.other | _ => none)
+    some ⟨tag, ← t.toNat?, b == "1"⟩
+  | _ => none
+
+def showState (st : PState) : String :=
+  "desc=" ++ Params.showOpt st.description ++ " type=" ++ Params.showOpt st.parsedType ++
+  " other=" ++ (if st.otherFields.isEmpty then "-" else ",".intercalate (st.otherFields.map fun f => toString f.text))
+
+end Property
+
+namespace Attrs
+
+def parseField (tok : String) : Option AField :=
+  match tok.splitOn "." with
+  | [k, n, t] => do
+    let tag ← (match k with | "i" => some VTag.ivar | "c" => some VTag.cvar | "v" => some VTag.var | "t" => some VTag.type
+                              | "o" => some VTag.other | _ => none)
+    let name ← Params.optNat n
+    some ⟨tag, name, ← t.toNat?⟩
+  | _ => none
+
+def showAttr (p : Nat × AttrV) : String :=
+  toString p.1 ++ "/" ++ Params.showOpt p.2.doc ++ "/" ++ Params.showOpt p.2.type ++ "/" ++ (if p.2.hasKind then "shown" else "hidden")
+
+end Attrs
+
 namespace Epytext
 
 def showHead : HeadOutcome → String
@@ -205,6 +278,34 @@ def handle (args : List String) : String :=
       | some (c, ind) => "some " ++ Proto.encodeStr c ++ " " ++ toString ind
       | none => "none"
     | _, _, _ => "bad-op"
+  | ["rstsep", t] =>
+    match Proto.decodeStr t with
+    | some text => Proto.encodeStr (Rst.stripSeparator text)
+    | none => "bad-op"
+  | "params" :: ps :: kw :: slf :: evs =>
+    match Params.parseSigParams ps, Params.optNat kw, Params.optNat slf, evs.mapM Params.parseEvent with
+    | some params, some kwn, some sn, some es =>
+      let sg : Params.Sig := ⟨params, kwn, sn⟩
+      let fh := Params.run sg es
+      let rs := Params.rows sg fh
+      "rows " ++ (if rs.isEmpty then "-" else " ".intercalate (rs.map Params.showDesc)) ++
+      " | reports " ++ (if fh.reports.isEmpty then "-" else " ".intercalate (fh.reports.map Params.showReport))
+    | _, _, _, _ => "bad-op"
+  | "extract" :: ex :: fs =>
+    match (if ex == "-" then some [] else (ex.splitOn ",").mapM String.toNat?), fs.mapM Attrs.parseField with
+    | some existing, some fields =>
+      let st := Attrs.extract (existing.map fun n => (n, ⟨none, none, true⟩)) fields
+      "attrs " ++ (if st.attrs.isEmpty then "-" else " ".intercalate (st.attrs.map Attrs.showAttr)) ++
+      " | missing " ++ Proto.showNatList st.missing
+    | _, _ => "bad-op"
+  | ["showntype", a, b, c] =>
+    match Params.optNat a, Proto.natList b, Params.optNat c with
+    | some pt, some own, some ann => Params.showOpt (Attrs.shownType pt own ann)
+    | _, _, _ => "bad-op"
+  | "property" :: hb :: fs =>
+    match fs.mapM Property.parseField with
+    | some fields => Property.showState (Property.handle (hb == "1") fields)
+    | none => "bad-op"
   | ["heading", a] =>
     match Proto.decodeStr a with
     | some c0 => showHead (headingOf c0 none)
